@@ -324,6 +324,22 @@ def stream_harvest(ctx, built, ntables, oracle=None, max_rows=160, maxdim=3, par
                     tag=f"dim{len(comb)}/" + ("refined" if refined else "plain"))
             if oracle and bs is not None:
                 oracle(t, F, comb, F.get_tree(comb), bs)
+        # every combination harvested once more on the same forest, in reverse order (what a second sample() does): the same bucket lists, and the
+        # property oracle on them
+        for comb, e1 in reversed(list(zip(combs, exp_blocks[1:]))):
+            if e1 and e1[0].startswith(("ERR", "RecursionError")):
+                continue
+            try:
+                bs2, stream2 = buckets_real(F, comb)
+            except (ZeroDivisionError, RecursionError):
+                continue
+            e2 = [f"{b.count} | {ivs(b.intervals)}" for b in bs2] + [f"drawn {len(stream2)}"]
+            if oracle:
+                oracle(t, F, comb, F.get_tree(comb), bs2)
+            if e2 != e1:
+                k = next((i for i, (a, b) in enumerate(zip(e1, e2)) if a != b), min(len(e1), len(e2)))
+                S.mismatch({"table": table_summary(t), "comb": comb, "what": "second harvest of the same tree on the same forest", "cols": t["cols"] if t["n"] <= 20 else "..."},
+                           e1[k] if k < len(e1) else "<missing>", e2[k] if k < len(e2) else "<missing>", "(first harvest vs second harvest)")
         if built:
             got = split_replies(drive(lines, timeout=900))
             if len(got) != len(exp_blocks):
